@@ -1,6 +1,7 @@
 package main
 
 import (
+	"regexp"
 	"fmt"
 	"go/constant"
 	"go/types"
@@ -327,6 +328,8 @@ func bindResults(env *Env, sig *types.Signature, rv Val) {
 func (x *Exec) applyContract(st *State, key string, fc *FuncContract, sig *types.Signature, recv *types.Var, args []Val, in ssa.Instruction, fn *ssa.Function) Val {
 	if fc.Trusted {
 		x.used[key] = true
+	} else if fn != nil {
+		x.called[fn] = true // verified contract of a callee: the property check must also verify that callee
 	}
 	for _, a := range args {
 		if a.Place != nil {
@@ -363,6 +366,11 @@ func (x *Exec) applyContract(st *State, key string, fc *FuncContract, sig *types
 				x.emit(st, "DECREASES", "rec"+callSite, sand(app("<", nv, ov), app("<=", "0", ov)), c.Src)
 			}
 		}
+	}
+	if ci, isCall := in.(ssa.CallInstruction); isCall {
+		x.curCall, x.curSig = ci, sig
+	} else {
+		x.curCall, x.curSig = nil, nil
 	}
 	pre := st.clone()
 	freshBase := app("+", "fresh0", fmt.Sprint(st.nobj))
@@ -416,8 +424,24 @@ func (x *Exec) applyContract(st *State, key string, fc *FuncContract, sig *types
 		}
 		x.assumeClause(st, env2, c)
 	}
+	lk := logKey(key)
+	if !st.callsLost {
+		if st.calls == nil {
+			st.calls = map[string][]callRec{}
+		}
+		st.calls[lk] = append(st.calls[lk], callRec{args: args, res: rv})
+	}
+	if st.recent == nil {
+		st.recent = map[string][]callRec{}
+	}
+	st.recent[lk] = append(st.recent[lk], callRec{args: args, res: rv})
 	return rv
 }
+
+var pathPrefixRE = regexp.MustCompile(`[A-Za-z0-9_.\-]+/`)
+
+// logKey: dependency.Parse, (*control.Paragraph).Set, (io.Reader).Read
+func logKey(key string) string { return pathPrefixRE.ReplaceAllString(key, "") }
 
 // lvalueAddr evaluates a modifies-clause entry to an address and the type stored there.
 func (x *Exec) lvalueAddr(env *Env, e CExpr) (string, types.Type) {
@@ -540,6 +564,40 @@ func (x *Exec) havocModifies(st *State, env *Env, fc *FuncContract, key string) 
 				nv := x.g.fresh(name, "(Array Addr "+x.w.compSorts[name]+")")
 				st.heap[name] = nv
 				st.assume(fmt.Sprintf("(forall ((p!z Addr)) (! (=> (not (= (oid p!z) (oid (sarr %s)))) (= (select %s p!z) (select %s p!z))) :pattern ((select %s p!z))))", v.S, nv, cur, nv))
+			}
+			continue
+		}
+		if c, ok := m.(*CCall); ok && c.Fun == "pointee" {
+			// pointee(p): p is an interface-typed parameter; the object it points to, when the call site passes a pointer
+			// of a statically known type (anything else: everything may change)
+			done := false
+			if id, isId := c.Args[0].(*CIdent); isId && x.curCall != nil && x.curSig != nil {
+				cc := x.curCall.Common()
+				for i := 0; i < x.curSig.Params().Len(); i++ {
+					if x.curSig.Params().At(i).Name() != id.Name {
+						continue
+					}
+					j := i
+					if cc.IsInvoke() || (x.curSig.Recv() != nil && len(cc.Args) == x.curSig.Params().Len()+1) {
+						if !cc.IsInvoke() {
+							j = i + 1
+						}
+					}
+					if j < len(cc.Args) {
+						if mi, isMI := cc.Args[j].(*ssa.MakeInterface); isMI {
+							if pt, isPtr := mi.X.Type().Underlying().(*types.Pointer); isPtr {
+								pv := x.val(st, mi.X)
+								if pv.Place == nil {
+									x.havocAt(st, pv.S, pt.Elem())
+									done = true
+								}
+							}
+						}
+					}
+				}
+			}
+			if !done {
+				x.havocAll(st, key+" (pointee of an unknown dynamic type)")
 			}
 			continue
 		}
